@@ -19,6 +19,9 @@ let types : (string * ty * string list) list = [
   ("BodyLegacy", TBodyLegacy, ["Transactions"; "Uncles"]);
   ("BodyShanghai", TBodyShanghai, ["Transactions"; "Uncles"; "Withdrawals"]);
   ("EpochAcc", TEpochAcc, ["HeaderRecords"]);
+  ("HeaderWithProofH", THeaderWithProofH, ["Header"; "Proof"]);
+  ("SSZProof", TSSZProof, ["Leaf"; "Witnesses"]);
+  ("MasterAcc", TMasterAcc, ["HistoricalEpochs"]);
 ]
 (* second table: state network (ztyp) and the ztyp beacon key *)
 let types2 : (string * ty2 * string list) list = [
@@ -32,5 +35,6 @@ let types2 : (string * ty2 * string list) list = [
   ("StorageTrieNodeWithProof", TStorageTrieNodeWithProof, ["StorageProof"; "AccountProof"; "BlockHash"]);
   ("BytecodeWithProof", TBytecodeWithProof, ["Code"; "AccountProof"; "BlockHash"]);
   ("HistSummariesKey", THistSummariesKey, ["Epoch"]);
+  ("CustomPayload", TCustomPayload, ["Payload"]);
 ]
 let consts : (string * string) list = []
